@@ -448,7 +448,7 @@ func (c *EvalCtx) evalIdent(name string) TVal {
 		return TVal{Val: v}
 	}
 	// nullary spec function
-	if sf, ok := fr.eng.contracts.specs[name]; ok && len(sf.Params) == 0 {
+	if sf := fr.eng.contracts.findSpec(c.pkg, name); sf != nil && len(sf.Params) == 0 {
 		return c.applySpec(sf, nil)
 	}
 	// package-level constant
@@ -1004,7 +1004,7 @@ func (c *EvalCtx) evalCall(e *Expr) TVal {
 		h := w.heap("AtomicBool", "(Array Int Bool)")
 		return c.mk(sel(fr.heapCur(c.st, h), a), sBool, tb)
 	}
-	if sf, ok := fr.eng.contracts.specs[e.Name]; ok {
+	if sf := fr.eng.contracts.findSpec(c.pkg, e.Name); sf != nil {
 		var args []TVal
 		for _, a := range e.Args {
 			args = append(args, c.eval(a))
@@ -1096,7 +1096,7 @@ func (c *EvalCtx) applySpec(sf *SpecFunc, args []TVal) TVal {
 		v.Type = rt
 		return v
 	}
-	name := "spec_" + sf.Name
+	name := fr.eng.contracts.smtName(sf)
 	var ps []string
 	var as []string
 	for i, p := range sf.Params {
